@@ -30,7 +30,7 @@ func (c *c17Case) render() []string {
 }
 
 func (c *c17Case) clone() *c17Case {
-	return &c17Case{Files: c17CloneFiles(c.Files), Paths: c.Paths, Cfg: c17Cfg{RenameExports: c.Cfg.RenameExports, PreserveParams: c.Cfg.PreserveParams, Excl: append([]string(nil), c.Cfg.Excl...)}}
+	return &c17Case{Files: c17CloneFiles(c.Files), Paths: c.Paths, Cfg: c17Cfg{RenameExports: c.Cfg.RenameExports, PreserveParams: c.Cfg.PreserveParams, Excl: append([]string(nil), c.Cfg.Excl...), Order: c.Cfg.Order}}
 }
 
 type c17Shrinker struct {
@@ -427,6 +427,14 @@ func (s *c17Shrinker) shrink(c *c17Case) (*c17Case, *c17Finding) {
 		cand.Cfg.PreserveParams = true
 		try(cand)
 	}
+	// the files handed over in load order, and named plainly: whatever of the
+	// order / the naming is still there afterwards is needed by the failure
+	if cur.Cfg.Order != "" {
+		cand := cur.clone()
+		cand.Cfg.Order = ""
+		try(cand)
+	}
+	s.plainPaths(&cur, try)
 	// Phase C: expression-level reductions until a fixed point
 	for pass := 0; pass < 6 && s.probes < s.max; pass++ {
 		progress := false
@@ -455,6 +463,7 @@ func (s *c17Shrinker) shrink(c *c17Case) (*c17Case, *c17Finding) {
 	}
 	// Phase D: normalisations that remove incidental features from the key
 	s.normalise(&cur, try)
+	s.plainPaths(&cur, try)
 	return cur, last
 }
 
@@ -474,6 +483,28 @@ func c17AllNodes(c *c17Case) []*c17N {
 		}
 	}
 	return out
+}
+
+// plainPaths renames the files towards f1.lisp, f2.lisp, ...: all at once if
+// the failure allows it, else one feature of the naming at a time.
+func (s *c17Shrinker) plainPaths(curp **c17Case, try func(*c17Case) bool) {
+	for round := 0; round < 4; round++ {
+		if strings.Join((*curp).Paths, "\x00") == strings.Join(c17FlatPaths(len((*curp).Paths)), "\x00") {
+			return
+		}
+		progress := false
+		for _, ps := range c17PathNormalisations((*curp).Paths) {
+			cand := (*curp).clone()
+			cand.Paths = ps
+			if try(cand) {
+				progress = true
+				break
+			}
+		}
+		if !progress {
+			return
+		}
+	}
 }
 
 func (s *c17Shrinker) normalise(curp **c17Case, try func(*c17Case) bool) {
